@@ -101,6 +101,9 @@ def rule_keep_going(ctx, rid="R5.2"):
     for f in funcs:
         cfg = cfg_of(f)
         for y in [n for n in cfg.live if n.kind == "yield"]:
+            if isinstance(y.ast.value, ast.YieldFrom):
+                # `yield from X` forwards every element of X by construction: the implicit loop has no exit but exhaustion
+                r.ok("%s yield-from@%s" % (site(f), norm(y.ast.value.value)[:50]), "forwards every element")
             for L in y.loops:
                 seen = set()
                 todo = [x for (l, x) in y.succ if l == "next"]
